@@ -6,9 +6,25 @@ representation invariants on it, and emits behaviours (state cover at depth D, e
 history at depth d, simulated long histories).  Each behaviour is replayed into the real
 SceneGraph; every `get` and a closing all-pairs sweep are compared with RefGet as computed
 by TLC.  The edge-list rebuild, copy() and to_flattened() are compared on the final state.
+
+The group elements TLC works with (SE(2,Z)) are embedded into 4x4 floats through several faithful
+representations (rotation about z / x / y, a mirrored one, conjugates by a non-uniform scale and by a
+shear), the frame names through several kinds of hashables, and every abstract update / get goes
+through one of the public entry points (update with and without frame_from, graph[v] = M, graph[v],
+from_edgelist / load of one edge) and containers (float64 / float32 / Fortran / strided / integer
+arrays, lists, tuples; quaternion and axis-angle in equivalent spellings): same behaviours, same
+expected group elements, different concrete code paths.
+
+code -> spec: SceneGraph.get events recorded from (a) the random driver under the recorder,
+(b) checks/c09_driver.py (entry points, containers, frame-name kinds, forests of 20-39 frames, chains
+of 64-1100 frames, Scene-level mutators) are judged by TLC (spec/TraceSceneGraph.tla names the term
+every answer must equal).
 """
+import functools
 import json
 import os
+import random
+import resource
 import sys
 import time
 
@@ -57,30 +73,122 @@ def mat(m):
     return M
 
 
-def present(m, form):
-    """The same matrix presented through the different kwargs SceneGraph.update accepts."""
+def _conj():
+    """change-of-basis matrices (all exactly representable, with exact inverses)"""
+    P = np.zeros((4, 4))
+    P[1, 0] = P[2, 1] = P[0, 2] = P[3, 3] = 1.0        # x -> y -> z -> x : the model's z axis becomes x
+    S = np.diag([2.0, 1.0, 4.0, 1.0])
+    H = np.eye(4)
+    H[0, 1], H[2, 0] = 1.0, -1.0                        # integer shear, determinant 1
+    out = []
+    for C in (np.eye(4), P, P @ P, np.eye(4), S, H):
+        Ci = np.linalg.inv(C)
+        Ci = np.round(Ci * 4) / 4
+        if not np.array_equal(C @ Ci, np.eye(4)):
+            raise MachineryError("change of basis not exact")
+        out.append((C, Ci))
+    return out
+
+
+REPS = ("rot_z", "rot_x", "rot_y", "mirror", "scaled", "sheared")
+RIGID_REPS = (0, 1, 2)
+_CONJ = None
+
+
+@functools.lru_cache(maxsize=None)
+def _rep_cached(r, k, x, y):
+    global _CONJ
+    if _CONJ is None:
+        _CONJ = _conj()
+    M = mat((k, x, y))
+    if r == 3:
+        # k |-> (-1)^k is a character of SE(2,Z): the representation stays faithful and becomes improper
+        M[2, 2] = -1.0 if k % 2 else 1.0
+    C, Ci = _CONJ[r]
+    M = C @ M @ Ci
+    M.flags.writeable = False
+    return M
+
+
+def rep(m, r):
+    """the group element m = <<k,x,y>> in representation r (a group isomorphism onto its image, so the
+    expected value of every query is the image of the element TLC computed)"""
+    return _rep_cached(r, m[0] % 4, m[1], m[2])
+
+
+FORMS_ANY = ("nd64", "list", "f32", "fortran", "strided", "int_or_tuple")
+FORMS_RIGID = FORMS_ANY + ("quat", "quat_neg_scaled", "axis_angle", "axis_scaled_neg")
+
+
+def present(m, r, form):
+    """-> (kwargs for update, [buffers the caller scribbles on afterwards])"""
+    M = rep(m, r)
+    if form == "nd64":
+        v = np.array(M)
+        return {"matrix": v}, [v]
+    if form == "list":
+        return {"matrix": M.tolist()}, []
+    if form == "f32":
+        v = M.astype(np.float32)
+        return {"matrix": v}, [v]
+    if form == "fortran":
+        v = np.asfortranarray(np.array(M))
+        return {"matrix": v}, [v]
+    if form == "strided":
+        big = np.zeros((8, 8))
+        big[::2, ::2] = M
+        return {"matrix": big[::2, ::2]}, [big]
+    if form == "int_or_tuple":
+        if np.array_equal(M, np.round(M)):
+            v = np.round(M).astype(np.int64)
+            return {"matrix": v}, [v]
+        return {"matrix": tuple(tuple(row) for row in M.tolist())}, []
+    # rigid representations only: rotation by k quarter turns about the image of z, translation (x, y, 0)
     k, x, y = m
-    ang = k * np.pi / 2.0
-    if form == 0:
-        return {"matrix": mat(m)}
-    if form == 1:
-        return {"quaternion": [np.cos(ang / 2), 0.0, 0.0, np.sin(ang / 2)], "translation": [x, y, 0.0]}
-    if form == 2:
+    C = _CONJ[r][0][:3, :3]
+    axis = C @ np.array([0.0, 0.0, 1.0])
+    tr = C @ np.array([float(x), float(y), 0.0])
+    ang = (k % 4) * np.pi / 2.0
+    if form == "quat":
+        q = np.r_[np.cos(ang / 2), np.sin(ang / 2) * axis]
+        return {"quaternion": q, "translation": tr}, [q, tr]
+    if form == "quat_neg_scaled":
+        # q and any non-zero multiple of it (the negative included) name the same rotation
+        q = -2.5 * np.r_[np.cos(ang / 2), np.sin(ang / 2) * axis]
+        return {"quaternion": q.tolist(), "translation": tr.tolist()}, []
+    if form == "axis_angle":
         if k % 4 == 0:
-            return {"translation": [x, y, 0.0]}
-        return {"axis": [0.0, 0.0, 1.0], "angle": ang, "translation": [x, y, 0.0]}
-    return {"matrix": mat(m).tolist()}
+            return {"translation": tr}, [tr]
+        return {"axis": axis, "angle": ang, "translation": tr}, [axis, tr]
+    if form == "axis_scaled_neg":
+        # an axis of any length, reversed together with the angle; a full turn more or less
+        return {"axis": (-3.0 * axis).tolist(), "angle": -ang + (2 * np.pi if k % 2 else 0.0), "translation": tuple(tr)}, []
+    raise MachineryError("unknown form " + form)
+
+
+# frame names: the model's strings, or other hashables (falsy ones included).  No two names of one map have
+# the same Python hash: see COLLIDING below.
+NAMEMAPS = (
+    {"w": "w", "a": "a", "b": "b", "c": "c", "d": "d"},
+    {"w": "world", "a": 0, "b": "b!", "c": ("t", 1), "d": 7},
+    {"w": "", "a": "a", "b": 1, "c": -1, "d": 2.5},
+)
+# distinct frame names with EQUAL Python hashes (hash("") == hash(0) == 0, hash(-1) == hash(-2) == -2 in
+# CPython).  Replayed separately so that what only these names break is attributed to its own deviation id.
+COLLIDING = {"w": "world", "a": 0, "b": "", "c": -1, "d": -2}
 
 
 def close(A, B):
     return A is not None and np.shape(A) == (4, 4) and np.allclose(A, B, rtol=0, atol=1e-9)
 
 
-def do_get(g, a, b):
-    """-> (matrix or None, geometry, exception name or None)"""
+def do_get(g, a, b, how=0):
+    """-> (matrix or None, geometry, exception name or None); a == "-" means "from the base frame" """
     try:
         if a == "-":
-            M, geo = g.get(frame_to=b)
+            M, geo = (g[b] if how == 0 else g.get(b) if how == 1 else g.get(frame_to=b))
+        elif how % 2:
+            M, geo = g.get(b, a)
         else:
             M, geo = g.get(frame_to=b, frame_from=a)
         return np.array(M, dtype=float), geo, None
@@ -88,92 +196,153 @@ def do_get(g, a, b):
         return None, None, type(e).__name__
 
 
-def replay_one(SceneGraph, beh, variant):
+def replay_one(SceneGraph, beh, variant, stats, colliding=False):
     """Replay one TLC behaviour. Returns list of failures (dicts)."""
     fails = []
-    g = SceneGraph(base_frame=beh.get("base0", "w"))
+    rnd = random.Random(variant)
+    r = variant % len(REPS)
+    nm = COLLIDING if colliding else NAMEMAPS[(variant // len(REPS)) % len(NAMEMAPS)]
+    forms = FORMS_RIGID if r in RIGID_REPS else FORMS_ANY
+    E = lambda m: rep(m, r)       # noqa: E731
+    N = lambda x: nm[x]           # noqa: E731
+    ctx = {"rep": REPS[r], "names": [repr(nm[k]) for k in ("w", "a", "b", "c", "d")]}
+    stats["rep:" + REPS[r]] = stats.get("rep:" + REPS[r], 0) + 1
+    nk = "names:colliding" if colliding else "names:%d" % ((variant // len(REPS)) % len(NAMEMAPS))
+    stats[nk] = stats.get(nk, 0) + 1
+
+    def hit(k):
+        stats[k] = stats.get(k, 0) + 1
+    base = beh.get("base0", "w")
+    g = SceneGraph(base_frame=N(base))
     for e in beh.get("init", []):
-        g.update(frame_to=e["v"], frame_from=e["u"], matrix=mat(e["m"]))
+        g.update(frame_to=N(e["v"]), frame_from=N(e["u"]), matrix=np.array(E(e["m"])))
     for i, st in enumerate(beh["h"]):
         op = st["op"]
         if op == "update":
-            kw = present(st["m"], (variant + i) % 4)
-            if st["g"] != "-":
+            form = forms[rnd.randrange(len(forms))]
+            kw, bufs = present(st["m"], r, form)
+            geo = st["g"] != "-"
+            if geo:
                 kw["geometry"] = st["g"]
-            g.update(frame_to=st["v"], frame_from=st["u"], **kw)
-            # the arrays handed to update() stay the caller's: scribbling on them afterwards must not
+            u, v = N(st["u"]), N(st["v"])
+            # the same abstract update through the different public entry points
+            opts = ["update", "update", "edgelist"]
+            if st["u"] == base:
+                opts += ["default_from", "default_from"]
+                if not geo and "matrix" in kw:
+                    opts += ["setitem", "setitem"]
+            entry = opts[rnd.randrange(len(opts))]
+            hit("form:" + form)
+            hit("entry:" + entry)
+            if entry == "update":
+                g.update(frame_to=v, frame_from=u, **kw)
+            elif entry == "default_from":
+                if rnd.randrange(2):
+                    g.update(v, **kw)
+                else:
+                    g.update(frame_to=v, frame_from=None, **kw)
+            elif entry == "setitem":
+                g[v] = kw["matrix"]
+            elif rnd.randrange(2):
+                g.from_edgelist([[u, v, kw]])
+            else:
+                g.load([(u, v, kw)])
+            # the arrays handed in stay the caller's: scribbling on them afterwards must not
             # change the graph ("product of the CURRENT edge matrices" means the graph's own values)
-            for val in kw.values():
-                if isinstance(val, np.ndarray):
-                    val[...] = 77.0
+            for buf in bufs:
+                buf.fill(77)
         elif op == "remove":
-            g.transforms.remove_node(st["u"])
+            g.transforms.remove_node(N(st["u"]))
         elif op == "remove_geometry":
-            g.remove_geometries(st["g"])
+            g.remove_geometries(st["g"] if rnd.randrange(2) else [st["g"]])
         elif op == "set_base":
-            g.base_frame = st["b"]
+            g.base_frame = N(st["b"])
+            base = st["b"]
         elif op == "get":
-            M, geo, exc = do_get(g, st["a"], st["b"])
+            how = rnd.randrange(3)
+            hit("get:" + ("explicit" if st["a"] != "-" else ("getitem", "default_from", "default_from")[how]))
+            M, geo, exc = do_get(g, "-" if st["a"] == "-" else N(st["a"]), N(st["b"]), how)
             if st["conn"]:
-                if exc is not None or not close(M, mat(st["exp"])):
+                if exc is not None or not close(M, E(st["exp"])):
                     fails.append({"clause": "GetIsPathProduct", "step": i, "got": None if M is None else M.tolist(),
-                                  "exc": exc, "exp": mat(st["exp"]).tolist()})
+                                  "exc": exc, "exp": E(st["exp"]).tolist(), **ctx})
                     return fails
                 if (geo or "-") != st["expg"]:
-                    fails.append({"clause": "GetGeometry", "step": i, "got": geo, "exp": st["expg"]})
+                    fails.append({"clause": "GetGeometry", "step": i, "got": geo, "exp": st["expg"], **ctx})
                     return fails
         else:
             raise MachineryError("unknown op " + op)
+    # a copy that is then changed must not reach back into the graph it was taken from: taken BEFORE the
+    # closing sweep so that the sweep's (mostly uncached) queries would see shared dictionaries
+    if beh["edges"] and rnd.randrange(4) == 0:
+        hit("copy_then_diverge")
+        ctx["copy_taken_and_changed_before_sweep"] = True
+        try:
+            h0 = g.copy()
+            e = beh["edges"][0]
+            h0.update(frame_to=N(e["v"]), frame_from=N(e["u"]), matrix=E(e["m"]) @ E((1, 1, 2)), geometry="only_in_copy")
+            h0.remove_geometries("g1")
+            h0.update(frame_to="only_in_copy", frame_from=N(e["v"]), matrix=np.array(E((1, 0, 1))))
+            h0.transforms.remove_node(N(e["u"]))
+        except BaseException as ex:  # noqa
+            fails.append({"clause": "CopyEquivalent", "exc": type(ex).__name__ + ": " + str(ex)[:100], **ctx})
+            return fails
     # closing sweep over every ordered pair of present frames
     for q in beh["sweep"]:
-        M, geo, exc = do_get(g, q["a"], q["b"])
+        M, geo, exc = do_get(g, N(q["a"]), N(q["b"]), rnd.randrange(2))
         if q["conn"]:
-            if exc is not None or not close(M, mat(q["exp"])):
+            if exc is not None or not close(M, E(q["exp"])):
                 fails.append({"clause": "GetIsPathProduct(sweep)", "pair": [q["a"], q["b"]],
                               "got": None if M is None else M.tolist(), "exc": exc,
-                              "exp": mat(q["exp"]).tolist()})
+                              "exp": E(q["exp"]).tolist(), **ctx})
                 return fails
             if (geo or "-") != q["expg"]:
-                fails.append({"clause": "GetGeometry(sweep)", "pair": [q["a"], q["b"]], "got": geo, "exp": q["expg"]})
+                fails.append({"clause": "GetGeometry(sweep)", "pair": [q["a"], q["b"]], "got": geo, "exp": q["expg"], **ctx})
                 return fails
     # T(a,c) = T(a,b).T(b,c), T(a,b) = T(b,a)^-1 and T(a,a) = I hold for the spec values (RefLaws);
     # equality with the spec values therefore implies them for the implementation.
-    # edge list export rebuilds an equivalent graph; so does copy()
+    # edge list export rebuilds an equivalent graph; so does copy().  (Half of the behaviours: the final
+    # forests repeat many times over among the emitted histories.)
     has_parent = {e["v"] for e in beh["edges"]}
-    for name, other in (("EdgelistRebuildsEquivalent", None), ("CopyEquivalent", "copy")):
+    for name, other in ((("EdgelistRebuildsEquivalent", None), ("CopyEquivalent", "copy")) if rnd.randrange(2) else ()):
+        hit("export:" + name)
         try:
             if other is None:
                 h = SceneGraph(base_frame=g.base_frame)
-                h.from_edgelist(g.to_edgelist())
+                if rnd.randrange(2):
+                    h.from_edgelist(g.to_edgelist())
+                else:
+                    h.load(g.to_edgelist())
             else:
                 h = g.copy()
         except BaseException as e:  # noqa
-            fails.append({"clause": name, "exc": type(e).__name__ + ": " + str(e)[:100]})
+            fails.append({"clause": name, "exc": type(e).__name__ + ": " + str(e)[:100], **ctx})
             return fails
         for q in beh["sweep"]:
             # frames without any edge do not appear in an edge list: only pairs joined by a path
             if not q["conn"] or q["a"] == q["b"]:
                 continue
-            M, geo, exc = do_get(h, q["a"], q["b"])
+            M, geo, exc = do_get(h, N(q["a"]), N(q["b"]), 1)
             # a root frame has no incoming edge to carry its geometry name in an edge list
             expg = q["expg"] if (other or q["b"] in has_parent) else (geo or "-")
-            if exc is not None or not close(M, mat(q["exp"])) or (geo or "-") != expg:
+            if exc is not None or not close(M, E(q["exp"])) or (geo or "-") != expg:
                 fails.append({"clause": name, "pair": [q["a"], q["b"]], "exc": exc,
                               "got": None if M is None else M.tolist(), "geo": geo,
-                              "exp": mat(q["exp"]).tolist(), "expg": q["expg"]})
+                              "exp": E(q["exp"]).tolist(), "expg": q["expg"], **ctx})
                 return fails
     # to_flattened = world transform of every node reachable from the base frame
     base = beh["base"]
     want = {q["b"]: q for q in beh["sweep"] if q["a"] == base and q["b"] != base}
     if want and all(q["conn"] for q in want.values()):
+        hit("to_flattened")
         try:
             flat = g.to_flattened()
         except BaseException as e:  # noqa
-            fails.append({"clause": "ToFlattened", "exc": type(e).__name__})
+            fails.append({"clause": "ToFlattened", "exc": type(e).__name__, **ctx})
             return fails
         for n, q in want.items():
-            if n not in flat or not close(np.array(flat[n]["transform"]), mat(q["exp"])):
-                fails.append({"clause": "ToFlattened", "node": n})
+            if N(n) not in flat or not close(np.array(flat[N(n)]["transform"]), E(q["exp"])):
+                fails.append({"clause": "ToFlattened", "node": n, **ctx})
                 return fails
     return fails
 
@@ -191,23 +360,27 @@ def _replay_chunk(chunk):
     from trimesh.scene.transforms import SceneGraph
     out = []
     n_get = 0
-    for idx, beh in chunk:
+    stats = {}
+    for idx, beh, colliding in chunk:
         if isinstance(beh, str):
             beh = json.loads(beh)   # behaviours are kept as compact JSON text (memory: 150 k of them in thorough)
-        f = replay_one(SceneGraph, beh, idx + seed())
+        f = replay_one(SceneGraph, beh, idx + 7919 * seed(), stats, colliding)
         n_get += sum(1 for s in beh["h"] if s["op"] == "get") + len(beh["sweep"])
         if f:
-            out.append({"behaviour": beh["h"], "fail": f[0]})
-    return out, n_get, len(chunk)
+            out.append({"behaviour": beh["h"], "init": beh.get("init", []), "fail": f[0], "colliding_names": colliding})
+    return out, n_get, len(chunk), stats
 
 
 def extra_unknown_frames(SceneGraph):
-    """Reads of unknown / disconnected frames must not disturb later answers."""
+    """Reads of unknown / disconnected frames must not disturb later answers.
+    -> list of (failure dict, deviation id or None)"""
     fails = []
     g = SceneGraph()
     g.update("a", "world", matrix=mat((1, 1, 0)))
     g.update("b", "a", matrix=mat((0, 0, 1)))
     want = mat((1, 1, 0)) @ mat((0, 0, 1))
+    flat0 = g.to_flattened()
+    nodes0 = sorted(map(repr, g.nodes))
     for bad in ("zz", "yy"):
         try:
             g.get(bad)
@@ -215,16 +388,74 @@ def extra_unknown_frames(SceneGraph):
             pass
         M, _, exc = do_get(g, "world", "b")
         if exc or not close(M, want):
-            fails.append({"clause": "GetAfterFailedGet", "bad": bad, "exc": exc})
+            fails.append(({"clause": "GetAfterFailedGet", "bad": bad, "exc": exc}, None))
+    # ... nor the world transforms of the frames that exist (to_flattened answered before the failed queries)
+    try:
+        flat1, exc = g.to_flattened(), None
+    except BaseException as e:  # noqa
+        flat1, exc = None, type(e).__name__ + ": " + str(e)[:80]
+    if flat1 is None or sorted(flat1) != sorted(flat0) or any(
+            not close(np.array(flat1[k]["transform"]), np.array(flat0[k]["transform"])) for k in flat0):
+        fails.append(({"clause": "ToFlattenedAfterFailedGet", "exc": exc, "frames_before": nodes0,
+                       "frames_after": sorted(map(repr, g.nodes)),
+                       "history": "update(a, world); update(b, a); to_flattened() ok; get('zz') raises; get('yy') raises; to_flattened()"},
+                      "FailedGetInsertsFrame"))
+    # a failed query FROM an unknown frame
+    g = SceneGraph()
+    g.update("a", "world", matrix=mat((1, 1, 0)))
+    try:
+        g.get("a", "qq")
+    except BaseException:  # noqa
+        pass
+    try:
+        ok = close(np.array(g.to_flattened()["a"]["transform"]), mat((1, 1, 0)))
+    except BaseException:  # noqa
+        ok = False
+    if not ok:
+        fails.append(({"clause": "ToFlattenedAfterFailedGet", "history": "update(a, world); get(a, frame_from='qq') raises; to_flattened()"},
+                      "FailedGetInsertsFrame"))
     return fails
 
 
-def trace_repo_tests(tier, V, cov):
-    """code -> spec: the repository's own scene-graph tests run under the recorder; TLC names the
-    term every recorded get must equal, numpy evaluates it."""
+def _own_driver_events(tier):
+    """histories of checks/c09_driver.py -> (events, {(fam, hid): mats}, coverage counters)"""
+    from checks import c09_driver
+    items = c09_driver.plan(tier, seed())
+    res = pmap(c09_driver.run_chunk, items, chunk=max(1, len(items) // 64 + 1))
+    events, mats, cnt = [], {}, {}
+    for chunk in res:
+        for evs, ms, cv in chunk:
+            events += evs
+            if evs:
+                mats[(evs[0]["fam"], evs[0]["hid"])] = ms
+            for k, v in cv.items():
+                cnt[k] = max(cnt.get(k, 0), v) if k.endswith("max_depth") else cnt.get(k, 0) + v
+    fam = {}
+    for ev in events:
+        fam[ev["fam"]] = fam.get(ev["fam"], 0) + 1
+    cnt["events_by_family"] = fam
+    # coverage guards: every family, every entry point, every container must really have been exercised
+    quick = tier == "quick"
+    need = {"entry": 600, "deep": 150, "scene": 150, "verydeep": 4}
+    for k, n in need.items():
+        if fam.get(k, 0) < n:
+            raise MachineryError("own driver: family %s produced %d events (< %d)" % (k, fam.get(k, 0), n))
+    for k in ("mut:setitem", "mut:update_default_from", "mut:update", "mut:edgelist_merge", "mut:edgelist_self", "mut:remove",
+              "mut:set_base", "mut:copy", "mut:deep_reparent", "mut:deep_remove", "mut:scene_add_geometry",
+              "mut:scene_apply_transform", "mut:scene_rezero", "mut:scene_camera_transform", "mut:scene_graph_setitem",
+              "get:getitem", "get:get_default_from", "get:get", "get:to_flattened", "get:get_on_graph_left_by_copy") + tuple(
+                  "container:" + c for c in c09_driver.CONTAINERS):
+        if cnt.get(k, 0) < (5 if quick else 30):
+            raise MachineryError("own driver: %s exercised only %d times" % (k, cnt.get(k, 0)))
+    if cnt.get("deep_max_depth", 0) < 30 or cnt.get("verydeep_max_depth", 0) < 100:
+        raise MachineryError("own driver: forests came out shallow: %r" % (cnt,))
+    return events, mats, cnt
+
+
+def _recorder_trace(tier, d, cov):
+    """(a) the repository's own scene-graph tests / the random float driver under the recorder -> (events, mats)"""
     import subprocess
     from harness.common import VERIF, repo_dir
-    d = tlc.prepare("c09/trace")
     trace = os.path.join(d, "trace.ndjson")
     env = dict(os.environ)
     env.update({"TRIMESH_VERIF": "1", "TRIMESH_VERIF_TRACE": trace,
@@ -254,128 +485,222 @@ def trace_repo_tests(tier, V, cov):
             events.append(ev)
     if mats is None or len(events) < 20:
         raise MachineryError("trace too short (%d events)" % len(events))
-    cases = []
-    for k, ev in enumerate(events):
-        cases.append({"id": k, "a": ev["a"], "b": ev["b"], "parents": ev["parents"]})
+    return events, mats
+
+
+def judge_traces(tier, V, cov, d, rec_events, rec_mats, own_events, own_mats):
+    """code -> spec: TLC names the term every recorded get must equal, numpy evaluates it."""
+    cases, src = [], []
+    for ev in rec_events:
+        par = {c: p_ for c, p_ in ev["parents"]}
+        src.append(("rec", ev, {k: (np.eye(4) if t == "I" else np.array(rec_mats[int(t[1:])])) for k, t in ev["edges"].items()}))
+        cases.append({"id": len(cases), "a": ev["a"], "b": ev["b"], "par": dict(par, zz_="-")})
+    for ev in own_events:
+        ms = own_mats[(ev["fam"], ev["hid"])]
+        src.append(("own", ev, {k: np.array(ms[t]) for k, t in ev["edges"].items()}))
+        cases.append({"id": len(cases), "a": ev["a"], "b": ev["b"], "par": dict(ev["par"], zz_="-")})
     with open(os.path.join(d, "cases.ndjson"), "w") as f:
         for c in cases:
             f.write(json.dumps(c) + "\n")
-    r = tlc.run(d, "TraceSceneGraph", "INIT Init\nNEXT Next\nINVARIANT Tell\nINVARIANT Acyclic\nCHECK_DEADLOCK FALSE\n", workers=1, timeout=900)
+    r = tlc.run(d, "TraceSceneGraph", "INIT Init\nNEXT Next\nINVARIANT Tell\nINVARIANT Acyclic\nCHECK_DEADLOCK FALSE\n", workers=1, timeout=1500)
     if r.violated == "Acyclic":
-        V.violation("ForestInv(recorded state)", {"what": "the parent map logged by the recorder contains a cycle although the driver only asked for acyclic updates"})
+        V.violation("ForestInv(recorded state)", {"what": "a logged parent map contains a cycle although the drivers only asked for acyclic updates"})
         return r.distinct, len(cases)
     tlc.must(r, "trace")
     if len(r.printed) < len(cases):
         raise MachineryError("TLC judged %d of %d recorded gets" % (len(r.printed), len(cases)))
-    token = {"I": np.eye(4)}
-    for k, M in enumerate(mats):
-        token["m%d" % k] = np.array(M)
-    nconn = 0
+    nconn, nconn_own, longest = 0, {}, 0
     for out in r.printed:
-        ev = events[out["id"]]
+        kind, ev, edge = src[out["id"]]
         if not out["conn"]:
             continue
         nconn += 1
+        longest = max(longest, len(out["term"]))
         want = np.eye(4)
         for item in out["term"]:
-            M = token[ev["edges"].get(item["n"], "I")]
+            M = edge.get(item["n"])
+            if M is None:
+                M = np.eye(4)
             want = want @ (np.linalg.inv(M) if item["inv"] else M)
         got = ev.get("res")
         scale = max(1.0, float(np.abs(want).max()))
-        if ev["exc"] or got is None or not np.allclose(np.array(got), want, rtol=0, atol=1e-6 * scale):
-            V.violation("GetIsPathProduct(recorded repo test)", {"a": ev["a"], "b": ev["b"], "parents": ev["parents"], "term": out["term"],
-                                                                  "exc": ev["exc"], "got": got, "want": want.tolist()})
-    cov["recorded_gets_judged"] = len(cases)
-    cov["recorded_gets_connected"] = nconn
+        bad = bool(ev["exc"]) or got is None or not np.allclose(np.array(got), want, rtol=0, atol=1e-6 * scale)
+        if kind == "rec":
+            if bad:
+                V.violation("GetIsPathProduct(recorded repo test)", {"a": ev["a"], "b": ev["b"], "parents": ev["parents"], "term": out["term"],
+                                                                      "exc": ev["exc"], "got": got, "want": want.tolist()})
+            continue
+        nconn_own[ev["fam"]] = nconn_own.get(ev["fam"], 0) + 1
+        if bad:
+            term = out["term"] if len(out["term"]) <= 12 else out["term"][:6] + ["... %d factors ..." % len(out["term"])] + out["term"][-3:]
+            detail = {"family": ev["fam"], "history": ev["hid"], "through": ev["how"], "a": ev["a_repr"], "b": ev["b_repr"],
+                      "edges_on_path": len(out["term"]), "term": term, "exc": ev["exc"],
+                      "got": got, "want": want.tolist() if len(out["term"]) <= 40 else "(product of %d factors)" % len(out["term"])}
+            if ev["exc"] == "RecursionError":
+                # numpy.linalg.multi_dot recurses once per factor: paths of about 1000 edges cannot be answered
+                V.violation("GetIsPathProduct(long path)", detail, "DeepPathRecursion")
+            else:
+                V.violation("GetIsPathProduct(%s histories)" % ev["fam"], detail)
+    for k, n in {"entry": 300, "deep": 100, "scene": 100, "verydeep": 4}.items():
+        if nconn_own.get(k, 0) < n:
+            raise MachineryError("own driver: only %d connected queries judged in family %s" % (nconn_own.get(k, 0), k))
+    cov["recorded_gets_judged"] = len(rec_events)
+    cov["own_driver_gets_judged"] = len(own_events)
+    cov["own_driver_gets_connected"] = nconn_own
+    cov["recorded_gets_connected"] = nconn - sum(nconn_own.values())
+    cov["longest_path_judged"] = longest
     return r.distinct, len(cases)
+
+
+def _run_jobs(jobs, parallel):
+    """jobs: list of (name, cfg text, tlc.run kwargs, keep_printed).  The TLC runs are independent (own
+    scratch directory each) and mostly single-worker: run side by side.  -> {name: (result, packed lines)}"""
+    from concurrent.futures import ThreadPoolExecutor
+    dirs = {j[0]: tlc.prepare("c09/" + j[0]) for j in jobs}
+
+    def one(job):
+        name, text, kw, keep = job
+        c0 = resource.getrusage(resource.RUSAGE_CHILDREN)
+        r = tlc.run(dirs[name], "SceneGraph", text, **kw)
+        c1 = resource.getrusage(resource.RUSAGE_CHILDREN)
+        r.cpu = (c1.ru_utime + c1.ru_stime) - (c0.ru_utime + c0.ru_stime)   # meaningful only when run serially
+        lines = _pack(r) if keep else []
+        r.printed = []
+        return name, r, lines
+    if parallel <= 1:
+        res = [one(j) for j in jobs]
+    else:
+        with ThreadPoolExecutor(max_workers=parallel) as ex:
+            res = list(ex.map(one, jobs))
+    return {name: (r, lines) for name, r, lines in res}
 
 
 def main(argv):
     tier = tier_from_args(argv)
+    quick = tier == "quick"
     V = Verdict(PROP, tier)
     trimesh = import_trimesh()
     from trimesh.scene.transforms import SceneGraph
     cov = {"tlc_runs": []}
     states = trans = 0
+    serial = os.environ.get("C09_SERIAL") == "1"
 
     def note(name, r):
         nonlocal states, trans
         states += r.distinct
         trans += r.generated
         cov["tlc_runs"].append({"run": name, "distinct": r.distinct, "generated": r.generated,
-                                "depth": r.depth, "wall_s": round(r.wall, 1)})
+                                "depth": r.depth, "wall_s": round(r.wall, 1),
+                                **({"cpu_s": round(r.cpu, 1)} if serial else {})})
 
-    # 1. model checking of the implementation-shaped design (intended = as fixed)
-    d = tlc.prepare("c09/mc")
-    depth_mc = 4 if tier == "quick" else 5
-    r = tlc.must(tlc.run(d, "SceneGraph", cfg(depth=depth_mc), timeout=1500), "mc")
-    note(f"mc nodes=4 gens=2 depth={depth_mc}", r)
-    r = tlc.must(tlc.run(d, "SceneGraph", cfg(depth=3 if tier == "quick" else 4, geoms="Geoms1"), timeout=1500), "mc-geom")
-    note("mc with geometry", r)
-    # spec self-tests: each seeded deviation must make TLC report GetIsPathProduct
+    # ---- the TLC runs (all independent of each other)
+    EMIT_GP = "INVARIANT GetIsPathProduct"
+    dc = 3 if quick else 4
+    nsim = 40 if quick else 400
+    dsim = 9 if quick else 12
+    jobs = []
+    # 1. model checking of the implementation-shaped design (intended = as fixed).
+    #    quick: the depth-3 run with geometry doubles as the state-cover emission (one run instead of two);
+    #    the deeper runs without emission belong to the thorough tier.
+    if not quick:
+        jobs.append(("mc", cfg(depth=5), dict(timeout=2400), False))
+    # 2. behaviours emitted by TLC
+    # (a) state cover: one shortest history per distinct model state (caches included); all invariants checked
+    jobs.append(("cover", cfg(depth=dc, geoms="Geoms1", invs=MC_INVS + "\nINVARIANT EmitAll"), dict(workers=1, timeout=2400), True))
+    # (b) every history of length 3 (no VIEW: hist is part of the state)
+    jobs.append(("leaf", cfg(depth=3, view=False, invs="INVARIANT EmitLeaf\n" + EMIT_GP), dict(workers=1, timeout=2400), True))
+    # (c) simulated long histories on 5 nodes, 3 generators.  TLC's simulator evaluates invariants on every
+    #     successor of the last state, so each simulated trace yields ~100 emitted behaviours sharing a prefix
+    jobs.append(("sim", cfg(nodes="Nodes5", gens="Gens3", geoms="Geoms1", depth=dsim, view=False, invs="INVARIANT EmitLeaf\n" + EMIT_GP),
+                 dict(workers=1, simulate=f"num={nsim}", depth=dsim + 1, seed=seed() + 7, timeout=2400), True))
+    # (d) from a pre-built chain world -> a -> b -> c: every history of length 3 (and a deeper state cover in
+    #     thorough), so that "multi-hop query, re-parent, query again" needs no set-up steps
+    jobs.append(("chain", cfg(depth=3, view=False, shape="chain", invs="INVARIANT EmitLeaf\n" + EMIT_GP), dict(workers=1, timeout=2400), True))
+    if not quick:
+        jobs.append(("chaincover", cfg(depth=4, shape="chain", invs="INVARIANT EmitAll\n" + EMIT_GP), dict(workers=1, timeout=2400), True))
+    # spec self-tests: each seeded deviation must make TLC report GetIsPathProduct (from the chain the
+    # shortest counterexamples are 2-3 steps, so these runs stop early)
+    for flag in ("ghost", "forget", "keep"):
+        jobs.append(("self_" + flag, cfg(depth=5, shape="chain", invs=EMIT_GP, **{flag: True}), dict(workers=1, timeout=2400), False))
+
+    # the recorder-driven trace (a subprocess) runs beside the TLC jobs; so do this check's own histories
+    from concurrent.futures import ThreadPoolExecutor
+    dtrace = tlc.prepare("c09/trace")
+    t_own = time.time()
+    own_events, own_mats, own_cnt = _own_driver_events(tier)       # fork pool first (before threads exist)
+    cov["own_driver"] = dict(own_cnt, wall_s=round(time.time() - t_own, 1))
+    with ThreadPoolExecutor(max_workers=1) as side:
+        fut = side.submit(_recorder_trace, tier, dtrace, cov)
+        done = _run_jobs(jobs, 1 if serial else (len(jobs) if quick else 4))
+        rec_events, rec_mats = fut.result()
+
     selftests = {}
     for flag in ("ghost", "forget", "keep"):
-        rr = tlc.run(d, "SceneGraph", cfg(depth=8, invs="INVARIANT GetIsPathProduct", **{flag: True}), timeout=1500)
+        rr = done["self_" + flag][0]
         selftests[flag] = rr.violated
         if rr.violated != "GetIsPathProduct":
             raise MachineryError(f"spec self-test {flag}: expected GetIsPathProduct violation, got {rr.violated} {rr.error}")
     cov["spec_selftests"] = selftests
-
-    # 2. behaviours emitted by TLC
-    behs = []
-    d = tlc.prepare("c09/emit")
-    # (a) state cover: one shortest history per distinct model state (caches included)
-    dc = 3 if tier == "quick" else 4
-    r = tlc.must(tlc.run(d, "SceneGraph", cfg(depth=dc, geoms="Geoms1", invs="INVARIANT EmitAll"), workers=1, timeout=1500), "emit-cover")
-    note(f"emit state cover depth={dc}", r)
-    behs += _pack(r)
-    n_cover = len(r.printed)
-    # (b) every history of length dl (no VIEW: hist is part of the state)
-    dl = 3
-    r = tlc.must(tlc.run(d, "SceneGraph", cfg(depth=dl, view=False, invs="INVARIANT EmitLeaf"), workers=1, timeout=1500), "emit-leaf")
-    note(f"emit all histories depth={dl}", r)
-    behs += _pack(r)
-    n_leaf = len(r.printed)
-    # (c) simulated long histories on 5 nodes, 3 generators
-    # TLC's simulator evaluates invariants on every successor of the last state, so each simulated
-    # trace yields ~100 emitted behaviours sharing a prefix
-    nsim = 40 if tier == "quick" else 400
-    dsim = 9 if tier == "quick" else 12
-    r = tlc.run(d, "SceneGraph", cfg(nodes="Nodes5", gens="Gens3", geoms="Geoms1", depth=dsim, view=False,
-                                     invs="INVARIANT EmitLeaf\nINVARIANT GetIsPathProduct"),
-                workers=1, simulate=f"num={nsim}", depth=dsim + 1, seed=seed() + 7, timeout=1500)
-    if r.violated or (r.error and r.error != "timeout"):
-        raise MachineryError("simulation failed: %s %s" % (r.violated, r.error))
-    note(f"simulate num={nsim} depth={dsim}", r)
-    behs += _pack(r)
-    n_sim = len(r.printed)
-    # (d) from a pre-built chain world -> a -> b -> c: every history of length 3 and a deeper state cover, so
-    # that "multi-hop query, re-parent, query again" needs no set-up steps
-    r = tlc.must(tlc.run(d, "SceneGraph", cfg(depth=3, view=False, shape="chain", invs="INVARIANT EmitLeaf\nINVARIANT GetIsPathProduct"), workers=1, timeout=1500), "emit-chain")
-    note("emit all histories depth=3 from a chain", r)
-    behs += _pack(r)
-    n_chain = len(r.printed)
-    if tier == "thorough":
-        r = tlc.must(tlc.run(d, "SceneGraph", cfg(depth=4, shape="chain", invs="INVARIANT EmitAll\nINVARIANT GetIsPathProduct"), workers=1, timeout=1500), "emit-chain-cover")
-        note("emit state cover from a chain", r)
-        behs += _pack(r)
-        n_chain += len(r.printed)
+    if not quick:
+        note("mc nodes=4 gens=2 depth=5", tlc.must(done["mc"][0], "mc"))
+    behs, fam_n = [], {}
+    for name, label in (("cover", f"mc with geometry + emit state cover depth={dc}"), ("leaf", "emit all histories depth=3"),
+                        ("sim", f"simulate num={nsim} depth={dsim}"), ("chain", "emit all histories depth=3 from a chain"),
+                        ("chaincover", "emit state cover depth=4 from a chain")):
+        if name not in done:
+            continue
+        r, lines = done[name]
+        if name == "sim":
+            if r.violated or (r.error and r.error != "timeout"):
+                raise MachineryError("simulation failed: %s %s" % (r.violated, r.error))
+        else:
+            tlc.must(r, name)
+        note(label, r)
+        fam_n[name] = len(lines)
+        behs += lines
+    n_cover, n_leaf, n_sim = fam_n["cover"], fam_n["leaf"], fam_n["sim"]
+    n_chain = fam_n["chain"] + fam_n.get("chaincover", 0)
     if n_cover < 100 or n_leaf < 100 or n_sim < nsim or n_chain < 1000:
-        raise MachineryError(f"emission too small: cover={n_cover} leaf={n_leaf} sim={n_sim}")
+        raise MachineryError(f"emission too small: cover={n_cover} leaf={n_leaf} sim={n_sim} chain={n_chain}")
 
     # 3. replay
     t0 = time.time()
-    results = pmap(_replay_chunk, list(enumerate(behs)))
+    work = [(i, b, False) for i, b in enumerate(behs)]
+    # the histories from the chain once more under frame names whose Python hashes collide
+    c0 = n_cover + n_leaf + n_sim
+    ncol = min(fam_n["chain"], 3000 if quick else 20000)
+    step = max(1, fam_n["chain"] // ncol)
+    work += [(i, behs[i], True) for i in range(c0, c0 + fam_n["chain"], step)]
+    results = pmap(_replay_chunk, work)
     n_get = sum(r[1] for r in results)
     n_beh = sum(r[2] for r in results)
-    for out, _, _ in results:
+    stats = {}
+    for out, _, _, st in results:
+        for k, v in st.items():
+            stats[k] = stats.get(k, 0) + v
         for f in out:
-            V.violation(f["fail"]["clause"], f)
-    for f in extra_unknown_frames(SceneGraph):
-        V.violation(f["clause"], f)
-    st_tr, n_rec = trace_repo_tests(tier, V, cov)
+            if f["colliding_names"]:
+                # the same behaviour passed under names with distinct hashes (or is reported there as well)
+                V.violation(f["fail"]["clause"] + "(frame names with equal hash())", f, "EdgeKeyHashCollision")
+            else:
+                V.violation(f["fail"]["clause"], f)
+    # coverage guards of the adapter's variants: every representation, name kind, container / spelling and
+    # entry point must have carried a fair share of the behaviours
+    floor = max(50, n_beh // 400)
+    need = (["rep:" + x for x in REPS] + ["names:%d" % k for k in range(len(NAMEMAPS))] + ["names:colliding"] + ["form:" + x for x in FORMS_RIGID]
+            + ["entry:" + x for x in ("update", "default_from", "setitem", "edgelist")]
+            + ["get:" + x for x in ("explicit", "getitem", "default_from")]
+            + ["copy_then_diverge", "export:EdgelistRebuildsEquivalent", "export:CopyEquivalent", "to_flattened"])
+    for k in need:
+        if stats.get(k, 0) < floor:
+            raise MachineryError("replay variant %s carried only %d of %d behaviours" % (k, stats.get(k, 0), n_beh))
+    cov["replay_variants"] = dict(sorted(stats.items()))
+    for f, dev in extra_unknown_frames(SceneGraph):
+        V.violation(f["clause"], f, dev)
+    st_tr, n_rec = judge_traces(tier, V, cov, dtrace, rec_events, rec_mats, own_events, own_mats)
     states += st_tr
     trans += st_tr
+    ru_c, ru_s = resource.getrusage(resource.RUSAGE_CHILDREN), resource.getrusage(resource.RUSAGE_SELF)
     cov.update({
         "states": states, "transitions": trans,
         "traces_validated_against_impl": n_beh + n_rec,
@@ -383,12 +708,18 @@ def main(argv):
         "behaviours": {"state_cover": n_cover, "all_histories_depth3": n_leaf, "simulated": n_sim, "from_chain": n_chain},
         "exhaustive": True,
         "replay_wall_s": round(time.time() - t0, 1),
-        "samples": [json.loads(behs[1])["h"], json.loads(behs[n_cover + n_leaf // 2])["h"], json.loads(behs[-1])["h"]],
+        "cpu_s": {"children": round(ru_c.ru_utime + ru_c.ru_stime, 1), "self": round(ru_s.ru_utime + ru_s.ru_stime, 1)},
+        "samples": [json.loads(behs[1])["h"], json.loads(behs[n_cover + n_leaf // 2])["h"], json.loads(behs[-1])["h"],
+                    {k: own_events[len(own_events) // 2][k] for k in ("fam", "how", "a_repr", "b_repr", "par")}],
     })
     return V.finish("model_checking", cov, assumptions=[
-        "matrices range over SE(2,Z) embedded in 4x4 (rotations by multiples of 90 degrees about z, integer translations)",
-        "forests of at most 5 named frames; histories up to the stated depths",
-        "float comparison atol 1e-9 (quaternion / axis-angle presentations are not bit exact)",
+        "TLC's matrices range over SE(2,Z); replayed through six faithful 4x4 representations (rotation about z / x / y by "
+        "multiples of 90 degrees with integer translations, a mirrored one, conjugates by diag(2,1,4) and by an integer shear)",
+        "forests of at most 5 named frames for the TLC-emitted histories (depths as stated); 20-39 frames and chains of "
+        "64-1100 frames for the driver's random histories with arbitrary float matrices (term named by TLC, evaluated by numpy, "
+        "atol 1e-6 x magnitude)",
+        "float comparison atol 1e-9 for the replay (quaternion / axis-angle presentations are not bit exact)",
+        "near-rigid matrices (|M M^T - I| < 1e-5) are not used: SceneGraph(repair_rigid=1e-5) re-orthonormalises them by design",
     ])
 
 
